@@ -83,7 +83,10 @@ type killPlan struct {
 	done  bool
 }
 
-var killClasses = []string{"", "CompareAndSwap @file.go", "fs:writeat", "atomic.StoreUint32", "next.Store", "fs:mmap", "Load @file.go", "s.bits.CompareAndSwap"}
+// (the record-level compare-and-swap, on the limit word and on a bucket head or
+// link, has its own class: "CompareAndSwap @file.go" would be used up by the
+// two of file.register)
+var killClasses = []string{"", "m.mapping.Data[off])).CompareAndSwap", "f.counters.CompareAndSwap", "fs:writeat", "atomic.StoreUint32", "next.Store", "fs:mmap", "m.mapping.Data[off])).Load", "s.bits.CompareAndSwap", "fs:fstat", "fs:open-create"}
 
 func drawKills(t *simrt.Tape, nprocs, max, horizon int) []*killPlan {
 	var ks []*killPlan
@@ -94,8 +97,14 @@ func drawKills(t *simrt.Tape, nprocs, max, horizon int) []*killPlan {
 		k.class = killClasses[ci]
 		if k.class == "" {
 			k.step = 1 + t.Draw(horizon)
+			if t.Bool(1, 3) {
+				k.step = 1 + t.Draw(8*horizon) // late in the run: second and third pages, long chains
+			}
 		} else {
 			k.k = 1 + t.Draw(6)
+			if t.Bool(1, 3) {
+				k.k = 1 + t.Draw(60)
+			}
 		}
 		ks = append(ks, k)
 	}
